@@ -58,6 +58,12 @@ class DeblendMachine(Machine):
             'fault_tier': self.fault_tier,
             'det_connectivity': None,
         }
+        if rng.chance(0.04):
+            cfg.update({'carpet': True, 'npixels': 1, 'nlevels': 32,
+                        'mode': rng.pick(['exponential', 'sinh']),
+                        'contrast': rng.pick([0.0, 1e-3, 0.05]),
+                        'entry': 'deblend', 'label_subset': False,
+                        'nsched': 2})
         if self.fault_tier and rng.chance(0.35):
             # task_error: detect with 8-connectivity, deblend with 4
             cfg['det_connectivity'] = 8
@@ -70,6 +76,21 @@ class DeblendMachine(Machine):
         sc = scenes.blend_scene(rng)
         data = sc['data']
         thr = rng.pick([1.0, 2.0, 4.0]) * max(sc['noise'], 0.5) + sc['offset']
+        if cfg.get('carpet'):
+            # one bright core on a carpet of faint bumps covering the whole
+            # frame: hundreds of markers at the low exponential thresholds
+            # (the 'nmarkers' fallback to linear spacing), none or few at
+            # the linear ones
+            n = rng.randint(66, 76)
+            g = rng.np()
+            data = 10.0 + g.normal(0, 1.0, (n, n))
+            ncore = rng.randint(1, 2)
+            data += scenes.gaussians((n, n), [
+                (rng.uniform(8, n - 8), rng.uniform(8, n - 8),
+                 rng.uniform(300, 3000), 1.5, 1.5, 0.0)
+                for _ in range(ncore)])
+            thr = 5.0
+            sc = {'data': data, 'noise': 1.0, 'offset': 10.0}
         out = {'data': enc(data), 'threshold': thr}
         if cfg['entry'] == 'finder':
             return out
@@ -264,6 +285,9 @@ class DeblendMachine(Machine):
         st.serial_raw = out
         st.serial = self._observe(out)
         st.trace.add('serial', digest(st.serial))
+        if isinstance(st.serial, dict) and st.serial.get('warnings') and \
+                'nmarkers' in st.serial['warnings']:
+            st.stats.probe('nmarkers_fallback_taken')
         self._check_inputs(st, 'after serial call')
         c = st.cfg
         if st.entry == 'deblend':
